@@ -73,7 +73,7 @@ theorem C05_body_hidden (p : Policy) (hu : p.allowUnsafe = false) (st : LoopStat
 
 /-- non-vacuity (the self-closing form that used to leak) -/
 example :
-    let p : Policy := { elsAndAttrs := [(b!"script", []), (b!"b", [])],
+    let p : Policy := { initialized := true, elsAndAttrs := [(b!"script", []), (b!"b", [])],
                         setOfElementsAllowedWithoutAttrs := [b!"b", b!"script"] }
     p.sanitizeCore b!"<script/>ZQ1</script><b>k</b><SCRIPT>ZQ2</SCRIPT>" = b!"<b>k</b>" := by decide
 
